@@ -2,9 +2,11 @@
 # tools/run_all_seeded.sh [tier]  — every /verif/seeded/*/patch.diff against the check of its property.
 # Prints one line per seeded change; /repo is restored after each.
 TIER="${1:-quick}"
-for d in /verif/seeded/*/; do
+for d in /verif/seeded/C*/; do
   id=$(basename "$d"); prop=${id%%-*}
-  /verif/tools/try_seeded.sh "$d/patch.diff" "$TIER" "$prop" 2>&1 | grep -E "^RESULT|PATCH|refusing|MACHINERY" | sed -E "s#patch=/verif/seeded/##; s#/patch.diff##"
+  # meta.json may name the check(s) that own the seam the change sits in (default: its property's check)
+  with=$(python3 -c "import json,sys; print(' '.join(json.load(open(sys.argv[1])).get('detect_with', [sys.argv[2]])))" "$d/meta.json" "$prop")
+  /verif/tools/try_seeded.sh "$d/patch.diff" "$TIER" $with 2>&1 | grep -E "^RESULT|PATCH|refusing|MACHINERY" | sed -E "s#patch=/verif/seeded/##; s#/patch.diff##"
 done
 echo "--- control: unchanged tree"
 cd /verif && for p in C01 C02 C03 C04 C05 C06 C07 C08 C09 C10 C11 C12 C13 C14 C15 C16 C17 C18 C19 C20; do ./check $p $TIER | tail -1 | cut -c1-160; done
